@@ -30,13 +30,13 @@ def _v(fixed):
 
 # Defect flags 1..9 (see Model.v).  Fixed in /repo HEAD (flag off everywhere, a regression is a VIOLATION):
 # 1 constant fall-back (24c9504), 3 expiry take-over (58e16d0), 4 unresolved answers (d5fadd1), 6 pending ACK
-# (b04c868), 7 nil pool (d114f02).  Still `known:` - 2 unchecked release, 5 untracked out-of-pool statics, 8 restore
+# (b04c868), 7 nil pool (d114f02), 10 AAA prefix overlapping a delegation pool (23daa44).  Still `known:` - 2 unchecked release, 5 untracked out-of-pool statics, 8 restore
 # keeps a conflicting address, 9 VRF-blind containment walk / pool override, 10 AAA prefix of a length other than the
 # pool's delegated length accepted although it overlaps the pool network.
 # Variants tried, in order: repaired (no defect); head (= Model.Head, the four open findings); head with one of the
 # open findings fixed (so that fixing them one at a time keeps the check green).
-FIXED = {1, 3, 4, 6, 7}
-VARIANTS = ["repaired", _v(FIXED)] + [_v(FIXED | {i}) for i in (2, 5, 8, 9, 10)]
+FIXED = {1, 3, 4, 6, 7, 10}
+VARIANTS = ["repaired", _v(FIXED)] + [_v(FIXED | {i}) for i in (2, 5, 8, 9)]
 MODEL_NEEDS_IMPL = True
 RULE = ("stage A (function level, PPPoE SessionState + IPoE resolve/provider path): random configurations of 1-3 "
         "IPv4 pools (0-3 addresses, exclusions, two profiles, VRFs 0/1, disjoint per VRF, sometimes the same subnet "
@@ -181,9 +181,9 @@ def gen_one(rng):
                     addr = str(rng.randint(p[3], max(p[3], p[4])))
                 elif c < 0.7:
                     addr = str(FALLBACK)
-                elif c < 0.8:
+                elif c < 0.76:
                     addr = "0"
-                elif c < 0.9:
+                elif c < 0.92:
                     addr = "none"
                 else:
                     addr = str(V4BASE + 0x090909)
@@ -410,11 +410,100 @@ def gen_reauth(rng):
     return " ".join(toks) + " ; " + " ; ".join(ops)
 
 
+def gen_ipcp(rng):
+    """IPCP family: several Configure-Request exchanges per authentication - a proposal that is Nak'ed (another
+    subscriber's address, an address outside the pool) or rejected (0.0.0.0), then a request without an IP-Address
+    option or with the assigned address; terminate; the next subscriber is given what was freed"""
+    n = rng.choice([2, 3])
+    lo = V4BASE + 256 * 7 + 1
+    ns = rng.randint(3, 4)
+    toks = ["P4", "1", "0", "0", str(lo), str(lo + n - 1), "-", "G", "0", "0", "-"]
+    for k in range(1, ns + 1):
+        toks += ["S", str(k), "P", "0", str(k)]
+    ops = []
+    order = list(range(1, ns + 1))
+    rng.shuffle(order)
+    up = []
+    for k in order:
+        st = str(rng.randint(lo, lo + n - 1)) if rng.random() < 0.2 else "-"
+        ops.append("PA %d 0 %s - - - - -" % (k, st))
+        up.append(k)
+        for _ in range(rng.randint(1, 3)):
+            c = rng.random()
+            if c < 0.45:
+                a = str(rng.randint(lo, lo + n - 1))     # very likely somebody else's address: Configure-Nak
+            elif c < 0.55:
+                a = str(V4BASE + 0x0a0a0a)
+            elif c < 0.65:
+                a = "0"
+            else:
+                a = "none"
+            ops.append("PI %d %s" % (k, a))
+        if rng.random() < 0.5 and up:
+            ops.append("PT %d" % up.pop(rng.randrange(len(up))))
+    for k in up:
+        if rng.random() < 0.6:
+            ops.append("PT %d" % k)
+    ops.append("PA %d 0 - - - - - -" % order[0])
+    return " ".join(toks) + " ; " + " ; ".join(ops)
+
+
+def gen_ha(rng):
+    """HA sync family: pools of the three families that SHARE registry keys (cfg token NS: IPv6 profiles are named like
+    the IPv4 ones; the same pool key number in P4 / P6 / PD), every Reserve*InPool / Release*InPool entry point with the
+    pool's own name, a name that exists only in another family, no name, for sessions of the peer node (ids >= 1000);
+    interleaved with local subscribers that allocate from the same pools (the "after failover" part)"""
+    a4 = V4BASE + 256 * 9 + 1
+    a6 = V6BASE + (3 << 64) + 0x20
+    pd = V6BASE + (0x200 << 64)
+    n4, n6 = rng.choice([2, 3]), rng.choice([2, 3])
+    k = rng.choice([1, 2])
+    toks = ["NS", "P4", str(k), "0", "0", str(a4), str(a4 + n4 - 1), "-",
+            "P6", str(k), "0", "0", str(a6), str(a6 + n6 - 1), "PD", str(k), "0", "0", str(pd), "62", "64"]
+    has7 = rng.random() < 0.4
+    if has7:
+        toks += ["P4", "7", "0", "0", str(a4 + 512), str(a4 + 513), "-"]      # a key that exists in IPv4 only
+    toks += ["G", "0", "0", "0", "S", "1", "I", "0", "1", "S", "2", "I", "0", "2", "S", "3", "P", "0", "3"]
+    keys = [str(k), str(k), str(k), "-", "7", "9"]
+
+    def item(fam):
+        if fam == "4":
+            return str(rng.randint(a4, a4 + n4 - 1))
+        if fam == "6":
+            return str(rng.randint(a6, a6 + n6 - 1))
+        return "%d/64" % (pd + (rng.randint(0, 3) << 64))
+    ops, held = [], []
+    for _ in range(rng.randint(4, 9)):
+        c = rng.random()
+        if c < 0.5:
+            fam = rng.choice(["4", "6", "6", "D"])
+            key = rng.choice(keys)
+            x = item(fam)
+            if fam == "4" and key == "7":
+                # an address outside the NAMED pool would be recorded there by PoolAllocator.Reserve (by design);
+                # the model's pools only lease their own slots: stay inside the named pool
+                x = str(a4 + 512 + rng.randint(0, 1)) if has7 else x
+            h = (fam, key, x, str(1000 + rng.randint(0, 2)))
+            ops.append("HR %s %s %s %s" % h)
+            held.append(h)
+        elif c < 0.65 and held:
+            h = held.pop(rng.randrange(len(held)))
+            ops.append("HL %s %s %s %s" % (h[0], rng.choice([h[1], "-"]), h[2], h[3]))
+        elif c < 0.8:
+            ops.append("%s %d 0 - - - -" % (rng.choice(["IS", "IV"]), rng.choice([1, 2])))
+        elif c < 0.9:
+            ops.append("IQ %d 0 - -" % rng.choice([1, 2]))
+        else:
+            ops.append("PA 3 0 - - - - - -")
+    ops += ["IV 1 0 - - - -", "IV 2 0 - - - -", "PA 3 0 - - - - - -"]
+    return " ".join(toks) + " ; " + " ; ".join(ops)
+
+
 def gen_cases(rng, tier, budget):
     n = budget or (700 if tier == "quick" else 20000)
     return ([gen_one(rng) for _ in range(n)] + [gen_churn(rng, False) for _ in range(n // 5)] +
             [gen_b(rng) for _ in range(n // 2)] + [gen_churn(rng, True) for _ in range(n // 7)] +
-            [gen_reauth(rng) for _ in range(n // 7)])
+            [gen_reauth(rng) for _ in range(n // 7)] + [gen_ipcp(rng) for _ in range(n // 10)] + [gen_ha(rng) for _ in range(n // 10)])
 
 
 # ------------------------------------------------------------------ parsing helpers
@@ -485,6 +574,25 @@ def monitor(case, impl):
             continue
         sid = o[1]
         new = {}
+        if o[0] in ("HR", "HL") and len(o) == 5:
+            # a session of the HA peer (synced to this node) holds the address until its release is synced
+            sid = "h" + o[4]
+            if o[0] == "HL":
+                told.get(sid, {}).pop(o[1], None)
+                continue
+            if res[:2] != ["ha", "ok"]:
+                continue
+            vrf.setdefault(sid, "0")
+            live[sid] = True
+            new[o[1]] = o[3]
+            for fam, a in new.items():
+                told.setdefault(sid, {})[fam] = a
+                for other, d in told.items():
+                    if other != sid and live.get(other) and vrf.get(other) == vrf.get(sid) and d.get(fam) == a and not (
+                            other.startswith("h")):
+                        return "peer session %s and s%s are both given %s address %s (op #%d %s)" % (
+                            sid, other, fam, a, k, " ".join(o))
+            continue
         if res[0] == "pa":
             vrf[sid] = o[2]
             live[sid] = True
@@ -729,8 +837,7 @@ def pd_len_overlap(case, k):
 
 
 OPEN = {2: "release-frees-foreign-lease", 5: "static-outside-pools-untracked",
-        8: "restore-keeps-conflicting-address", 9: "reserve-ignores-vrf",
-        10: "pd-static-prefix-overlaps-pool"}
+        8: "restore-keeps-conflicting-address", 9: "reserve-ignores-vrf"}
 
 
 def signature(case, impl, models):
@@ -758,10 +865,6 @@ def signature(case, impl, models):
                 # hypothesis DISJ of C02_unique is violated by the configuration itself, which /repo accepts
                 return "pools-overlap-within-vrf-accepted"
         return "monitor:" + fam
-    if d0 and pd_len_overlap(case, d0[0]) and impl != models.get(_v(FIXED | {10})):
-        # the op supplies an AAA prefix that is no delegation of any PD pool (other length) but overlaps a pool network:
-        # the code accepts it (d5: untracked, d10: not seen as a conflict), the Repaired model refuses it
-        return OPEN[10]
     if impl == models.get(VARIANTS[1]) and impl != models.get(_v(FIXED | {8})):
         # restore kept an address whose re-reservation conflicted: needs an earlier open finding to produce the two
         # images with one address, so it is never the FIRST difference; named whenever the trace depends on it
